@@ -671,6 +671,9 @@ func pipelineBodyFaults(r *explore.Run, rep *report.R, scName string, nsteps int
 			opts.Uncached = s.Client("xr-uncached")
 		}
 		s.Inj = inj
+		// A failed read answers with any of the API server's error classes.
+		inj.ErrClasses = xrh.ErrClassNames
+		s.ErrBeforeFn = inj.ErrBefore
 		inj.Armed = true
 	}
 	rec := xrh.NewXRReconciler(xrd, opts)
